@@ -809,12 +809,51 @@ func c06Oracle(s *sim, op Op, idx int) {
 		checkSummary(s, "statemachine", &s.smRecv[i].V.VRV)
 		checkSummary(s, "statemachine.jumpahead", s.smRecv[i].V.JumpAheadRoundView)
 	}
-	if s.fail != nil || !s.fPhase {
+	if s.fail != nil {
 		return
 	}
-	if s.vv.Height != s.fStart[0] || uint64(s.vv.Round) != s.fStart[1] {
-		s.failf("", "minority-moved-node", "only validators %b (power %s of %s, below one third) voted since the node was at %d/%d, yet its voting position is now %d/%d",
-			s.fMask, powerOfMask(s.setFor(s.fStart[0]), s.fMask), s.setFor(s.fStart[0]).total(), s.fStart[0], s.fStart[1], s.vv.Height, s.vv.Round)
+	// a round may only be left on authentic votes of DISTINCT validators: nil precommits > 2/3, all
+	// precommits present, or >= 1/3 of the power voting in the next round (the members of F alone never suffice)
+	if s.vv.Height == s.c06Prev[0] && uint64(s.vv.Round) > s.c06Prev[1] {
+		h, r := s.vv.Height, uint32(s.c06Prev[1])
+		set := s.setFor(h)
+		distinct := func(rr uint32, kind int) (union map[int]bool, nilSet map[int]bool) {
+			union, nilSet = map[int]bool{}, map[int]bool{}
+			_, pv, pc, err := s.d.rs.LoadRoundState(context.Background(), h, rr)
+			if err != nil {
+				return
+			}
+			col := pv
+			if kind == 1 {
+				col = pc
+			}
+			for hash, sigs := range col.BlockSignatures {
+				ok, _ := checkSigs(set, kind, h, rr, hash, sigs)
+				for i := range ok {
+					union[i] = true
+					if hash == "" {
+						nilSet[i] = true
+					}
+				}
+			}
+			return
+		}
+		pcAll, pcNil := distinct(r, 1)
+		pvNext, _ := distinct(r+1, 0)
+		pcNext, _ := distinct(r+1, 1)
+		justified := exceedsTwoThirds(powerOf(set, pcNil), set.total()) ||
+			powerOf(set, pcAll).Cmp(set.total()) == 0 ||
+			atLeastOneThird(powerOf(set, pvNext), set.total()) || atLeastOneThird(powerOf(set, pcNext), set.total()) ||
+			uint64(s.vv.Round) > s.c06Prev[1]+1 // more than one round in one step: judged round by round is not possible here
+		if !justified {
+			s.failf("", "unjustified-round-change", "voting round went from %d/%d to %d/%d although distinct validators hold: nil precommits %s, all precommits %s, next-round prevotes %s, next-round precommits %s of total %s",
+				h, r, s.vv.Height, s.vv.Round, powerOf(set, pcNil), powerOf(set, pcAll), powerOf(set, pvNext), powerOf(set, pcNext), set.total())
+			return
+		}
+		s.label("round-change-justified")
+	}
+	s.c06Prev = [2]uint64{s.vv.Height, uint64(s.vv.Round)}
+	if !s.fPhase {
 		return
 	}
 	// when every signer in the voting view belongs to F, no total may reach one third
